@@ -27,6 +27,7 @@ import GraphiqModel.Proofs.CommuteRecordRw
 import GraphiqModel.Proofs.CommuteHilbert
 import GraphiqModel.Proofs.CommuteProb
 import GraphiqModel.Proofs.SweepCommuteDM
+import GraphiqModel.Proofs.SweepCommuteDMRefine
 namespace Graphiq.C13
 open Graphiq Graphiq.Wire
 
@@ -964,6 +965,22 @@ theorem rewrite_chain_preserves_compiled_state_dm (ne np : Nat) (c c' : Circuit)
     (s : Commute.DSt (ne + np)) :
     runSeq (Commute.appD ne np) (c'.sops seq') s = runSeq (Commute.appD ne np) (c.sops seq) s :=
   rewrite_chain_preserves_compiled_state (Commute.appD ne np) (Commute.appD_comm ne np) c c' hgood h seq seq' hl hl' s
+
+/-- **the density-matrix semantics is tied to the compile loop**: on gate-only circuits, running `Commute.appD` along the
+    compile sequence from `|0…0⟩⟨0…0|` gives the density matrix `ρ(t)` of the very tableau `t` the stabilizer backend
+    (`stabRun`) returns for that sequence — for every topological order, setting and script (`Commute.appD` refines the
+    stabilizer compile step `Commute.appT` gate by gate: `rho_tab_gate` of C07).  Hypothesis `hnd`: the registers of one
+    operation are pairwise different. -/
+theorem density_matrix_semantics_is_rho_of_compiled_tableau (c : Circuit) (hgood : c.Good) (har : Commute.ArityOk c)
+    (hg : Commute.GateOnly c) (seq : List Nat) (d : Det) (script : List Bool) (sc : Commute.Script)
+    (hnd : ∀ a, a ∈ c.sops seq → a.regs.Nodup) :
+    ∃ s, stabRun c.ne c.np d script ((c.sops seq).map Commute.toCOp) = some s ∧
+      runSeq (Commute.appD c.ne c.np) (c.sops seq) (some (Hilbert.tabRho (c.ne + c.np) (Tab.ket0 (c.ne + c.np)), sc))
+        = some (Hilbert.tabRho (c.ne + c.np) s.t, sc) := by
+  have hok := Commute.sops_gate_ok c hgood har hg seq
+  obtain ⟨s', h1, _, h2⟩ := Commute.runSeq_appD_refines c.ne c.np (c.sops seq) (fun a ha => ⟨(hok a ha).1, hnd a ha⟩)
+    { t := Tab.ket0 (c.ne + c.np), writes := [], script := script, rand := [], outs := [] } rfl sc
+  exact ⟨s', by rw [Commute.stabRun_eq_runSeq c hgood har hg seq d script c.ne c.np rfl rfl]; exact h1, h2⟩
 
 /-- the hypothesis of the commutation theorems is met by real operations: a Hadamard on emitter 0 and a CNOT on photons 0, 1 -/
 example : ∀ r, r ∈ [(⟨.e, 0⟩ : Reg)] → r ∉ [(⟨.p, 0⟩ : Reg), ⟨.p, 1⟩] := by decide
